@@ -198,4 +198,37 @@ def Geom.detPairForBin (g : Geom) (b : Bin) : Option DetPair := do
   let t := b.tof.natAbs * g.tofMash
   if b.tof ≥ 0 then pure ⟨d1, r1, d2, r2, t⟩ else pure ⟨d2, r2, d1, r1, t⟩
 
+/-! ## well-formedness of a segment table (hypothesis of the ring-pair theorems; evaluated by the driver) -/
+
+/-- the arithmetic condition under which the axial position of a single-ring-difference segment is exact
+    (otherwise the source only prints "LORs shifted with respect to the physical rings") -/
+def Seg.Exact (s : Seg) (off : Int) : Prop := s.minRD = s.maxRD → (s.minRD - off) % 2 = 0
+
+/-- decidable well-formedness of a geometry's segment table: ranges are non-empty and pairwise disjoint,
+    offsets are integers, single-ring-difference segments are exact, every ring pair of a covered ring
+    difference gets an axial position inside the segment's range, and (last clause) the first segment has the
+    smallest `minRD` and the last segment the largest `maxRD`.
+
+    The last clause is needed because `segOfRingDiff` (like the source) first tests `rd` against the *last*
+    segment's `maxRD` and the *first* segment's `minRD` only: without it the table
+    `[⟨5,6,13⟩, ⟨0,1,13⟩]` on 7 rings satisfies the other clauses, lists ring pair `(0,5)` for `(0,5)`, but
+    `segAxOfRingPair 0 5 = none`. -/
+def Geom.WFb (g : Geom) : Bool :=
+  g.segs.all (fun s => decide (s.minRD ≤ s.maxRD)) &&
+  (List.range g.segs.length).all (fun i => (List.range g.segs.length).all fun j =>
+    i == j || (match g.segs[i]?, g.segs[j]? with
+      | some a, some b => decide (a.maxRD < b.minRD ∨ b.maxRD < a.minRD)
+      | _, _ => true)) &&
+  g.segs.all (fun s => match s.axOff g.R with
+    | none => false
+    | some off =>
+      (s.minRD != s.maxRD || (s.minRD - off) % 2 == 0) &&
+      (List.range g.R.toNat).all fun r1 => (List.range g.R.toNat).all fun r2 =>
+        let rd := (r2 : Int) - (r1 : Int)
+        !(s.minRD ≤ rd && rd ≤ s.maxRD) || (0 ≤ s.axOf off r1 r2 && s.axOf off r1 r2 < s.numAx)) &&
+  (match g.segs.head?, g.segs.getLast? with
+    | some first, some last =>
+      g.segs.all fun s => decide (first.minRD ≤ s.minRD) && decide (s.maxRD ≤ last.maxRD)
+    | _, _ => true)
+
 end StirVerif.C01
